@@ -12,7 +12,7 @@ TABLE = {
        "only_use_keys_in_metadata`, that an empty list raises before the "
        "verifier, that the issuer looked up is the element's own, the default "
        "and plumbing of the setting, and the use/entity filter of "
-       "MetaData.certs. No cryptography, no federation documents. R6 evaluates the KeyDescriptor use filter of MetaData.certs in the three cases use absent / equal / different (abstract evaluation, nothing executed): a key of a different use never reaches the accept site, a key of the requested use does.",
+       "MetaData.certs. No cryptography, no federation documents. R6 evaluates the KeyDescriptor use filter of MetaData.certs in the three cases use absent / equal / different (abstract evaluation, nothing executed): a key of a different use never reaches the accept site, a key of the requested use does. R7: no certificate/key lookup result is remembered under a key that omits a parameter it depends on (memoisation-key completeness, with an embedded positive control).",
   ref="Part 3 C03"),
  "C04": dict(
   tech="linear normal forms of comparisons (symbols bound by def-use, helper "
@@ -37,7 +37,7 @@ TABLE = {
        "the unconditional audience check and the every-restriction shape of "
        "for_me, the recipient gate, provenance of the own endpoints and the "
        "came_from gate. The run-time cross product of message shapes is not "
-       "executed.",
+       "executed. R9: no misplaced positional argument in the response-parsing modules.",
   ref="Part 3 C05"),
  "C06": dict(
   tech="table agreement (samlp constants vs STATUSCODE2EXCEPTION), "
@@ -48,7 +48,7 @@ TABLE = {
        "that status_ok and the version assertion lie on every path to "
        "acceptance and dominate identity extraction, and that nothing on the "
        "way swallows the error. Behaviour on garbage version strings at run "
-       "time is not decided. When STATUSCODE2EXCEPTION is computed rather than written as a literal its entries are read from the imported module (top level only) and compared with the samlp constants.",
+       "time is not decided. When STATUSCODE2EXCEPTION is computed rather than written as a literal its entries are read from the imported module (top level only) and compared with the samlp constants. R6: Entity._parse_response returns a response only after a verify() call on it completed normally.",
   ref="Part 3 C06"),
  "C07": dict(
   tech="typestate over the CFG (normal and exceptional paths separately), "
@@ -60,7 +60,7 @@ TABLE = {
        "Policy.filter returns a filtered copy and always applies configured "
        "attribute_restrictions, and the error branch. Two genuine violations "
        "are recorded as known findings. Regex semantics and entity-category "
-       "contents are not decided. Policy.filter: the unfiltered copy is assigned only under `_ava is None` once a filter stage may have run. R6: a composite (tuple) entity-category key releases its attributes only if every member category is among the SP's.",
+       "contents are not decided. Policy.filter: the unfiltered copy is assigned only under `_ava is None` once a filter stage may have run. R6: a composite (tuple) entity-category key releases its attributes only if every member category is among the SP's. R7: mdstore.attribute_requirement consults every AttributeConsumingService; only an explicit index narrows.",
   ref="Part 3 C07"),
  "C09": dict(
   tech="derivation of returned destinations, equality-guard recognition, "
@@ -84,7 +84,7 @@ TABLE = {
        "and wrong-type rejection, Destination and IssueInstant gates, and "
        "accept=>verified with only_valid_cert unconstrained. Two genuine "
        "violations are recorded as known findings. Garbled encodings and "
-       "xmlsec1 are not decided. Request._loads hands signature_check exactly the caller's must/only_valid_cert/origdoc on every path (origins, not text).",
+       "xmlsec1 are not decided. Request._loads hands signature_check exactly the caller's must/only_valid_cert/origdoc on every path (origins, not text). R10: no misplaced positional argument in the request-parsing modules; the reference-URI guard of the shared verifier (C01.R3) is part of R7.",
   ref="Part 3 C10"),
 }
 
@@ -101,7 +101,7 @@ TABLE.update({
        "the opt-in pyXMLSecurity backend; all 1143 generated *_from_string "
        "functions go through create_class_from_xml_string; no parse function "
        "swallows a parser error. What libxml2 inside xmlsec1 does and parser "
-       "behaviour on concrete hostile documents are not decided. R6: no incremental parse (iterparse/pull parser) whose consuming loop can be left before the input is exhausted.",
+       "behaviour on concrete hostile documents are not decided. R6: no incremental parse (iterparse/pull parser) whose consuming loop can be left before the input is exhausted. R7: every inbound parse call receives the function's own text argument, at most re-encoded (no slicing, regex extraction or rewriting before the parse).",
   ref="Part 3 C11"),
  "C12": dict(
   tech="schema-table reflection (import of the schema modules in a child "
@@ -126,7 +126,7 @@ TABLE.update({
        "text), delegation of the five verify() overrides, that the checked "
        "simple-type validators can fail and are wired into VALIDATOR, and "
        "validation on the receive paths. Value-level conformance of arbitrary "
-       "strings is not decided.",
+       "strings is not decided. V8: memoisation keys in validate.py are complete; V9: the constructor default of every required attribute of every schema class is None.",
   ref="Part 3 C13"),
  "C14": dict(
   tech="classified template inventory, sanitiser (html.escape) check on every "
@@ -164,7 +164,7 @@ TABLE.update({
        "unknown/unsupported/binding filter, entity isolation and key-use "
        "filter, and whether every caller acts on the signature verdict. "
        "Three genuine violations are recorded as known findings. Exactness "
-       "for arbitrary federation documents is not decided. M7 (generation side of the round trip): do_key_descriptor emits one KeyDescriptor per configured certificate under the use it is configured for, unconditionally within its loop.",
+       "for arbitrary federation documents is not decided. M7 (generation side of the round trip): do_key_descriptor emits one KeyDescriptor per configured certificate under the use it is configured for, unconditionally within its loop. M8: memoisation keys complete in mdstore/metadata/config; M9: no misplaced positional argument when the store is built and loaded.",
   ref="Part 3 C16"),
  "C17": dict(
   tech="statement-order rule in the common block, move-not-copy check, "
@@ -189,7 +189,7 @@ TABLE.update({
        "quoted, new ids derive from fresh randomness with a collision retry, "
        "persistent lookup precedes issue and compares both qualifiers, the "
        "manage-name-id sequence, no undefined names. Histories and run-time "
-       "uniqueness are not decided. R7: a NameID mapping request returns a stored identifier only under equality of format and SPNameQualifier with the request's policy.",
+       "uniqueness are not decided. R7: a NameID mapping request returns a stored identifier only under equality of format and SPNameQualifier with the request's policy. R8: find_nameid returns an identifier only if every criterion matches; code() encodes each field unchanged (one-to-one).",
   ref="Part 3 C18"),
  "C19": dict(
   tech="derivation of every index into Cache._db, dominance of the expiry "
@@ -199,7 +199,7 @@ TABLE.update({
        "code(name_id) of the method's own subject, that get() returns only "
        "after the expiry test and set()/get() agree on the stored tuple, that "
        "expired/empty sources cannot reach the merge, delete/reset shapes and "
-       "backend neutrality. Histories and shelve semantics are not decided. reset() stores the empty, expired record on every normal path.",
+       "backend neutrality. Histories and shelve semantics are not decided. reset() stores the empty, expired record on every normal path. The cache key function code() is one-to-one; memoisation keys in cache/ident/population are complete.",
   ref="Part 3 C19"),
  "C20": dict(
   tech="flag-sensitive shape rules on _run_xmlsec / parse_xmlsec_output / "
